@@ -45,6 +45,7 @@ type interpreter struct {
 	inStdInit          bool
 	fnvStreams         map[*value][]value
 	syncMaps           map[*value]*omap
+	harnessAlias       map[string]string
 	mergeable          map[string]bool
 	noMerge            bool
 	mutexes            map[*value]*mutexState
@@ -693,7 +694,7 @@ func mustDeref(t types.Type) types.Type {
 // interpreter construction, globals and package initialisation
 
 func newInterpreter(ex *Explorer, p *pathState) *interpreter {
-	i := &interpreter{ex: ex, p: p, prog: ex.prog, globals: map[*ssa.Global]*value{}, initDone: map[*ssa.Package]bool{}, sizes: ex.sizes, replace: map[string]value{}, onceDone: map[*value]bool{}, uniq: map[value]*value{}, mergeable: map[string]bool{}, fnvStreams: map[*value][]value{}, syncMaps: map[*value]*omap{}, mutexes: map[*value]*mutexState{}}
+	i := &interpreter{ex: ex, p: p, prog: ex.prog, globals: map[*ssa.Global]*value{}, initDone: map[*ssa.Package]bool{}, sizes: ex.sizes, replace: map[string]value{}, onceDone: map[*value]bool{}, uniq: map[value]*value{}, mergeable: map[string]bool{}, fnvStreams: map[*value][]value{}, syncMaps: map[*value]*omap{}, harnessAlias: map[string]string{}, mutexes: map[*value]*mutexState{}}
 	if rp := i.prog.ImportedPackage("runtime"); rp != nil {
 		i.runtimeErrorString = rp.Type("errorString").Object().Type()
 	} else {
@@ -713,6 +714,7 @@ var stdInitAllowed = map[string]bool{
 	"unicode": true, "unicode/utf8": true, "encoding/base64": true, "strconv": true,
 	"math/bits": true, "net/http/internal/ascii": true, "internal/itoa": true,
 	"strings": true, "bytes": true, "hash/fnv": true, "slices": true, "sort": true,
+	"io/fs": true, "internal/oserror": true, "io": true,
 	"context": true, // error values (Canceled, DeadlineExceeded) and the closed channel
 }
 
@@ -727,9 +729,30 @@ func (i *interpreter) allowInit(pkg *ssa.Package) bool {
 	return false
 }
 
+// aliases of std globals whose own package initialiser is not interpreted
+var globalAlias = map[string][2]string{
+	"os.ErrNotExist":   {"io/fs", "ErrNotExist"},
+	"os.ErrExist":      {"io/fs", "ErrExist"},
+	"os.ErrPermission": {"io/fs", "ErrPermission"},
+	"os.ErrInvalid":    {"io/fs", "ErrInvalid"},
+	"os.ErrClosed":     {"io/fs", "ErrClosed"},
+}
+
 func (i *interpreter) globalAddr(g *ssa.Global) *value {
 	if r, ok := i.globals[g]; ok {
 		return r
+	}
+	if al, ok := globalAlias[g.String()]; ok {
+		if p := i.prog.ImportedPackage(al[0]); p != nil {
+			if tg, ok := p.Members[al[1]].(*ssa.Global); ok {
+				return i.globalAddr(tg)
+			}
+		}
+	}
+	if name, ok := i.harnessAlias[g.String()]; ok {
+		if tg, ok := i.ex.fn.Pkg.Members[name].(*ssa.Global); ok {
+			return i.globalAddr(tg)
+		}
 	}
 	pkg := g.Pkg
 	if !isTargetPkg(pkg) && stdInitAllowed[pkg.Pkg.Path()] && !i.inStdInit {
@@ -823,6 +846,15 @@ func (i *interpreter) runMain(fn *ssa.Function) {
 				for _, e := range m.entries {
 					if !e.dead {
 						i.replace[e.key.(string)] = e.val.(iface).v
+					}
+				}
+			}
+		}
+		if g, ok := fn.Pkg.Members["vxGlobalAlias"].(*ssa.Global); ok {
+			if m, ok := (*i.globalAddr(g)).(*omap); ok && m != nil {
+				for _, e := range m.entries {
+					if !e.dead {
+						i.harnessAlias[e.key.(string)] = e.val.(string)
 					}
 				}
 			}
